@@ -758,6 +758,24 @@ func famHash(dir string, seed int64, tier string) {
 		}
 	}
 	apiTreeEditsStayPrivate(repT, "C12")
+	{
+		// a tree that was iterated, then edited below the root, then iterated again shows the edit
+		base := []sb.Token{tokK(sb.KindArray), tokI(1), tokK(sb.KindArray), tokI(2), tokI(3), tokK(sb.KindArrayEnd), tokK(sb.KindArrayEnd)}
+		tr, e := sb.TreeFromStream(tokensFrom(base))
+		if e == nil {
+			it1, _ := collect(tr.Iter())
+			inner := tr.Subs[1]
+			inner.Subs[1].Token = &sb.Token{Kind: sb.KindInt, Value: 20}
+			it2, _ := collect(tr.Iter())
+			want := append([]sb.Token{}, base...)
+			want[4] = tokI(20)
+			repT.Evaluations++
+			if !tokensExactEq(it1, base) || !tokensExactEq(it2, want) {
+				repT.violate("C12", "iter-differs", fmt.Sprintf("a tree iterated, edited (a leaf replaced) and iterated again gives [%s], it now holds [%s]", descTokens(it2), descTokens(want)), "tree edited between two iterations")
+				repT.violate("C13", "combinator-not-transparent", fmt.Sprintf("a tree iterated, edited (a leaf replaced) and iterated again gives [%s], it now holds [%s]", descTokens(it2), descTokens(want)), "tree edited between two iterations")
+			}
+		}
+	}
 	wH.flush()
 	wT.flush()
 	wR.flush()
